@@ -388,8 +388,8 @@ def tpl_T2(sim, tape, viol, keys, desc, cb, job):
     obs_results = []
 
     def observer(task):
-        for _ in range(3):
-            obs_results.append(outcome(lambda s: optree.tree_flatten([inst, (1, 2)], namespace=flat_ns), None))
+        for j in range(4):
+            obs_results.append(outcome(lambda s: optree.tree_flatten([inst, (1, 2)], namespace=flat_ns, none_is_leaf=bool(j % 2)), None))
 
     sim.spawn('observer', observer)
     desc.update({'class': cls.__name__, 'racers': n, 'global': use_global})
@@ -415,9 +415,20 @@ def tpl_T2(sim, tape, viol, keys, desc, cb, job):
             optree.tree_flatten(inst, namespace=flat_ns)
             if w.flatten_calls != calls0 + 1:
                 viol('wrong-winner', 'T2:%s' % cls.__name__, 'flatten does not use the winning registration')
-        for o in obs_results:
-            if o[0] == 'exc' and not isinstance(o[1], EngineWouldBlock):
-                viol('not-sequential', 'T2:observer', 'observer flatten raised %s' % describe_outcome(o))
+        seen_custom = False
+        for j, o in enumerate(obs_results):
+            if o[0] == 'exc':
+                if not isinstance(o[1], EngineWouldBlock):
+                    viol('not-sequential', 'T2:observer', 'observer flatten raised %s' % describe_outcome(o))
+                continue
+            # only registrations happen in this template, so once one flatten of the observer saw the type registered,
+            # every LATER flatten of the same thread must too — for either value of none_is_leaf (a registration that is
+            # published to the two engine variants in two steps breaks this)
+            is_custom = 'CustomTreeNode' in repr(o[1][1])
+            if seen_custom and not is_custom:
+                viol('torn', 'T2:variants', 'observer saw %s registered in flatten #%d but not in the later flatten #%d (none_is_leaf=%s): %r' % (
+                    cls.__name__, j - 1, j, bool(j % 2), o[1][1]))
+            seen_custom = seen_custom or is_custom
 
     def cleanup():
         if winners:
